@@ -56,7 +56,7 @@ PLAN: dict = {}
 LOG: list = []
 
 
-def boom(detector, a=0, b=0, tag=""):
+def boom(detector, a=0, b=0, tag="", v=None):
     """probe: logs the call, raises when the fault plan matches (model name, step, swept values / call number)."""
     name = detector.current_running_model_name
     step = int(detector.pipeline_count)
@@ -83,12 +83,42 @@ def boom(detector, a=0, b=0, tag=""):
     raise _make_exc(p["exc"], p["msg"])
 
 
+def _quiesce():
+    """Wait until the thread pools of dask have finished the tasks that were already submitted when the failure
+    surfaced (nondeterminism owned: no stray model call may happen after this point)."""
+    import threading
+    import time
+
+    try:
+        import dask.threaded as dt
+
+        pools = [dt.default_pool] + [p for d in list(dt.pools.values()) for p in list(d.values())]
+        for p in pools:
+            if p is not None:
+                p.shutdown(wait=True)
+        dt.default_pool = None
+        dt.pools.clear()
+    except Exception:  # noqa: BLE001
+        pass
+    deadline = time.time() + 3.0
+    me = threading.current_thread()
+    while time.time() < deadline:
+        busy = [t for t in threading.enumerate() if t is not me and t is not threading.main_thread() and t.is_alive()
+                and "ThreadPoolExecutor" in t.name]
+        if not busy:
+            break
+        time.sleep(0.01)
+
+
 def _slow_if_requested():
     if PLAN.get("_hit") and PLAN.get("slow_after"):
         import time
 
         time.sleep(0.02)
 
+
+LONG_TAGS = ("data/observations/2030-01-02/frame_000123_dark.fits", "data/observations/2030-01-02/frame_000124_flat.fits")
+LONG_LIST = (1.5, 2.5, 3.5, 4.5, 5.5, 6.5, 7.5, 8.5)
 
 PIPES = {
     "p2": [("photon_collection", "m_ph"), ("charge_collection", "m_cc")],
@@ -105,7 +135,7 @@ def build_pipe(pname):
     for g, n in DISABLED[pname]:
         groups.setdefault(g, []).append(("props.c09_fault_propagation.boom", n, {"a": 0, "b": 0}, False))
     for g, n in PIPES[pname]:
-        groups.setdefault(g, []).append(("props.c09_fault_propagation.boom", n, {"a": 0, "b": 0}))
+        groups.setdefault(g, []).append(("props.c09_fault_propagation.boom", n, {"a": 0, "b": 0, "v": [0.0, 0.0], "tag": ""}))
     return mk.pipeline(groups)
 
 
@@ -144,6 +174,12 @@ def enumerate_cases(tier, seed):
                             cases.append({"mode": "obs_seq", "omode": omode, "pipe": "p2", "steps": steps,
                                           "site": {"name": model, "step": step, "a": run["a"], "b": run["b"]}, "exc": exc})
                         first = False
+    # swept values that are long (a file-name-like text of 45 characters, a list of 8 numbers): they must reach the caller
+    # in full, not abbreviated
+    for run in _runs("longvals"):
+        for g, model in PIPES["p2"]:
+            cases.append({"mode": "obs_seq", "omode": "longvals", "pipe": "p2", "steps": 1,
+                          "site": {"name": model, "step": 0, "a": run["a"], "b": run["b"]}, "exc": "ValueError"})
     # the command-line / YAML entry point pyxel.run(<file>) with an outputs section
     for ymode in ("exposure", "obs_seq"):
         first = True
@@ -179,6 +215,9 @@ def enumerate_cases(tier, seed):
     for k in ks:
         for exc in (EXC if (thorough and k in (0, 8)) else (["ValueError", "ProbeError"] if k in (0, 8) else ["ValueError"])):
             cases.append({"mode": "calibration", "pipe": "p2", "site": {"name": "m_cc", "call": k}, "exc": exc})
+    for k in ((0, 3, 8, 20) if thorough else (0, 8)):
+        for exc in ("ValueError", "ProbeError"):
+            cases.append({"mode": "calibration", "pipe": "p2", "vector": True, "site": {"name": "m_cc", "call": k}, "exc": exc})
     # several islands: a fault in one island while the others are still evolving (their later evaluations are slowed
     # down so that the failing island finishes first); 2 islands x population 8: calls 0-15 initial populations
     ks2 = list(range(0, 48, 2)) if thorough else [3, 12, 17, 19, 26, 33]
@@ -200,6 +239,8 @@ def _runs(omode):
         return [{"a": 1 + s, "b": 0}, {"a": 2 + s, "b": 0}, {"a": 0, "b": 5}, {"a": 0, "b": 6}]
     if omode == "custom":
         return [{"a": 1 + s, "b": 5}, {"a": 2 + s, "b": 6}, {"a": 3 + s, "b": 7}]
+    if omode == "longvals":
+        return [{"a": 1 + s, "b": 0}, {"a": 2 + s, "b": 0}]
     raise KeyError(omode)
 
 
@@ -216,6 +257,10 @@ def build_observation(omode, pname, steps, with_dask, tmp):
         params = [ParameterValues(key=ka, values=[1 + s, 2 + s]), ParameterValues(key=kb, values=[5, 6])]
     elif omode == "product3":
         params = [ParameterValues(key=ka, values=[1 + s, 2 + s, 3 + s])]
+    elif omode == "longvals":
+        params = [ParameterValues(key=ka, values=[1 + s, 2 + s]),
+                  ParameterValues(key=key_of(pname, "m_ph", "tag"), values=list(LONG_TAGS)),
+                  ParameterValues(key=key_of(pname, "m_cc", "v"), values=[list(LONG_LIST)])]
     elif omode == "sequential":
         params = [ParameterValues(key=ka, values=[1 + s, 2 + s]), ParameterValues(key=kb, values=[5, 6])]
     else:
@@ -225,7 +270,7 @@ def build_observation(omode, pname, steps, with_dask, tmp):
                 f.write(f"{r['a']} {r['b']}\n")
         params = [ParameterValues(key=ka, values="_"), ParameterValues(key=kb, values="_")]
         kw = dict(from_file=fn, column_range=(0, 2))
-    mode = {"product3": "product"}.get(omode, omode)
+    mode = {"product3": "product", "longvals": "product"}.get(omode, omode)
     return Observation(parameters=params, mode=mode, readout=mk.readout(times), with_dask=with_dask, **kw)
 
 
@@ -310,7 +355,7 @@ def run_case(case):
                         phase = "load"
                         result.load()
             elif mode == "calibration":
-                result = _run_calibration(det, pipe, tmp, case.get("islands", 1))
+                result = _run_calibration(det, pipe, tmp, case.get("islands", 1), vector=bool(case.get("vector")))
                 phase = "compute"
                 # everything lazily attached to the result must be computable (or fail loudly)
                 for node in result.subtree:
@@ -320,6 +365,8 @@ def run_case(case):
             raised = e
     finally:
         hit = PLAN.get("_hit", 0)
+        if mode in ("obs_dask", "calibration"):
+            _quiesce()              # worker threads of a failed parallel run must not log into the next case
         PLAN.clear()
         shutil.rmtree(tmp, ignore_errors=True)
 
@@ -348,7 +395,15 @@ def run_case(case):
             bad("wrong-model-blamed", f"the error names model(s) {blamed} although {site['name']!r} failed: {text[:400]!r}")
         if mode == "obs_seq":
             # the parameter values of the failing run: every swept key and its value
-            for arg in ("a", "b"):
+            if case["omode"] == "longvals":
+                # the first run with the faulted `a` carries the first tag; the list has one value
+                if LONG_TAGS[0] not in text:
+                    bad("parameters-missing", f"the swept text value {LONG_TAGS[0]!r} of the failing run does not reach the "
+                        f"caller in full: {text[-500:]!r}", value="long-text")
+                if not all(repr(x) in text.split(key_of(case["pipe"], "m_cc", "v"))[-1] for x in LONG_LIST):
+                    bad("parameters-missing", f"the swept list {list(LONG_LIST)} of the failing run does not reach the caller "
+                        f"in full: {text[-500:]!r}", value="long-list")
+            for arg in ("a", "b") if case["omode"] != "longvals" else ("a",):
                 k = key_of(case["pipe"], "m_ph", arg)
                 v = site[arg]
                 swept = not (case["omode"] == "sequential" and v == 0)
@@ -411,7 +466,7 @@ def _has_value(text, key, value):
     return False
 
 
-def _run_calibration(det, pipe, tmp, islands=1):
+def _run_calibration(det, pipe, tmp, islands=1, vector=False):
     import pyxel
     from pyxel.observation import ParameterValues
 
@@ -419,7 +474,10 @@ def _run_calibration(det, pipe, tmp, islands=1):
 
     tgt = os.path.join(tmp, "t.npy")
     np.save(tgt, np.ones((2, 3)))
-    cal = calib.calibration([tgt], [ParameterValues(key=key_of("p2", "m_ph", "a"), values="_", boundaries=(0.0, 5.0))],
+    variables = [ParameterValues(key=key_of("p2", "m_ph", "a"), values="_", boundaries=(0.0, 5.0))]
+    if vector:          # a vector-valued variable: the decision vector is longer than the list of variables
+        variables.append(ParameterValues(key=key_of("p2", "m_cc", "v"), values=["_", "_"], boundaries=(0.0, 1.0)))
+    cal = calib.calibration([tgt], variables,
                             generations=2, population_size=8, pygmo_seed=1, num_islands=islands, num_evolutions=1)
     return pyxel.run_mode(cal, det, pipe, with_inherited_coords=True)
 
